@@ -100,10 +100,20 @@ func c11Key(id int64) string {
 type c11Repo struct {
 	repos.IPortMappingRepository
 	maps *c11Maps
+	// the per-client index as the real repository keeps it: written when a mapping is created and
+	// not rewritten when its parties change later - a former party's index may still list a mapping
+	stale map[string][]string
 }
 
 func (r c11Repo) GetClientPortMappings(key string) ([]*models.PortMapping, error) {
-	return r.maps.GetClientPortMappings(key)
+	out, err := r.maps.GetClientPortMappings(key)
+	for _, id := range r.stale[key] {
+		if mp, ok := r.maps.m[id]; ok {
+			cp := *mp
+			out = append(out, &cp)
+		}
+	}
+	return out, err
 }
 func (r c11Repo) GetPortMapping(id string) (*models.PortMapping, error) { return r.maps.GetPortMapping(id) }
 
@@ -300,7 +310,7 @@ func c11Setup(ctx context.Context) (w *c11World, connA, connB, connS *c03RW, cod
 	w.sm.SetCloudControl(c11SessCloud{w.maps})
 	mem := memory.New(ctx)
 	w.codes = repos.NewConnectionCodeRepository(repos.NewRepository(mem))
-	w.svc = conncode.NewService(w.codes, c11Svc{w.maps}, c11Repo{maps: w.maps}, nil, ctx)
+	w.svc = conncode.NewService(w.codes, c11Svc{w.maps}, c11Repo{maps: w.maps, stale: map[string][]string{"1003": {"pm1"}}}, nil, ctx)
 	w.domains = repos.NewHTTPDomainMappingRepository(repos.NewRepository(mem), []string{"t.net"})
 
 	// the production wiring of setupConnectionCodeCommands
